@@ -1,4 +1,5 @@
 import PqModel.Codec
+import PqModel.Lz4Encode
 import PqModel.Spec.BlockCodecs
 
 /-! # C20 — Compression codecs are lossless whatever was compressed before (PARTIAL)
@@ -375,5 +376,46 @@ example : lz4EncSimple (List.replicate 30 7 ++ [1, 2, 2]) = [31, 7, 1, 0, 10, 48
     lz4Dec [] = .ok [] ∧ lz4Dec [0x10, 97, 0, 0] = .error .badOffset ∧
     lz4Dec [0x14, 97, 1, 0] = .error .truncated := by
   decide +kernel
+
+/-! ## lz4 Encode: the destination handed to the block compressor (every dst capacity) -/
+
+/-- lz4, `Codec.Encode` as it stands: whatever capacity the caller's dst has, the buffer handed to
+`CompressBlock` has at least `CompressBlockBound(len(src))` bytes, so (contract of the
+third-party compressor: it never gives up at or above the bound) Encode returns the block; and
+with the decode loop (`lz4_loop_returns_valid`) `Decode(Encode(x)) = x` for EVERY pair of dst
+capacities on the two sides. -/
+theorem lz4_roundtrip_any_dst (E : Lz4EncImpl) (L : Lz4Impl) (enc : Bytes → Bytes) (need : Bytes → Nat)
+    (hE : Lz4EncContract E enc) (hL : Lz4Contract L enc need) (x : Bytes) (capE capD : Nat) :
+    (lz4Encode E capE x).1 = enc x ∧ lz4BlockBound x.length ≤ (lz4Encode E capE x).2 ∧
+    ∃ len, lz4Decode L (Nat.log2 (need x) + 2) capD (lz4Encode E capE x).1 = some (some x, len) := by
+  rw [lz4Encode_ok hE]
+  refine ⟨rfl, reserveAtLeast_ge _ _, ?_⟩
+  obtain ⟨j, _, h, _⟩ := lz4_loop_returns_valid L enc need hL x capD
+  exact ⟨_, h⟩
+
+example : Lz4EncContract toyLz4Enc2 PqModel.Spec.BlockCodecs.lz4LastSeq ∧
+    lz4Encode toyLz4Enc2 1 [7] = ([16, 7], 17) :=
+  ⟨toyLz4Enc2_contract, by decide⟩
+
+/-- What the bound is for (regression fact about the variant "keep the caller's buffer when it
+can hold the input", seeded change C20-3a — NOT the code): a compressor that meets the contract
+and gives up below the bound, as pierrec/lz4 does on incompressible data, makes that variant
+return the EMPTY block, without error, for a dst of capacity `len(src)`. -/
+theorem lz4_encode_keep_caller_buffer_loses_data :
+    ∃ (E : Lz4EncImpl) (enc : Bytes → Bytes) (x : Bytes) (cap : Nat), Lz4EncContract E enc ∧
+      x.length ≤ cap ∧ (lz4EncodeKeepCaller E cap x).1 = [] ∧ enc x ≠ [] ∧
+      (lz4Encode E cap x).1 = enc x :=
+  ⟨toyLz4Enc2, _, [7], 1, toyLz4Enc2_contract, by decide, by decide, by decide, by decide⟩
+
+open PqModel.Spec.BlockCodecs in
+/-- SPEC: the worst-case bound is enough. For every input there is an LZ4 block of at most
+`len + len/255 + 16` bytes that the spec decoder reads back to the input (the literal-only
+block), so a compressor CAN always succeed within `CompressBlockBound`. -/
+theorem lz4_bound_admits_lossless_block (x : List UInt8) :
+    ∃ b : List UInt8, b.length ≤ lz4BlockBound x.length ∧ lz4Dec b = .ok x :=
+  ⟨lz4LastSeq x, lz4LastSeq_length_le x, lz4Dec_lastSeq x⟩
+
+example : PqModel.Spec.BlockCodecs.lz4LastSeq (List.replicate 300 9) =
+    [240, 255, 30] ++ List.replicate 300 9 ∧ lz4BlockBound 300 = 317 := by decide +kernel
 
 end PqModel.Props.C20
